@@ -777,7 +777,7 @@ func buildInline(fset *token.FileSet, pkg *types.Package, info *types.Info, src 
 	text := func(from, to token.Pos) string { return string(src[off(from):off(to)]) }
 	htf := fset.File(h.body.Pos())
 	// parameter names (receiver first)
-	type bind struct{ name, typ, arg string }
+	type bind struct{ name, typ, arg, ftyp string } // typ "" = infer from arg; ftyp always the declared type
 	var binds []bind
 	if sig.Recv() != nil && !h.isClosure {
 		sel, ok := site.call.Fun.(*ast.SelectorExpr)
@@ -799,14 +799,24 @@ func buildInline(fset *token.FileSet, pkg *types.Package, info *types.Info, src 
 		if h.recv != nil && len(h.recv.List) == 1 && len(h.recv.List[0].Names) == 1 {
 			name = h.recv.List[0].Names[0].Name
 		}
-		binds = append(binds, bind{name, tstr(rt), rexpr})
+		if s := info.Selections[sel]; s == nil || len(s.Index()) != 1 {
+			return nil, false // promoted through an embedded field: the receiver is not sel.X
+		}
+		binds = append(binds, bind{name, "", rexpr, tstr(rt)}) // the adjusted receiver has exactly the receiver type
 	}
 	pnames := fieldNames(h.params)
 	if len(pnames) != len(site.call.Args) || len(pnames) != sig.Params().Len() {
 		return nil, false
 	}
 	for i, a := range site.call.Args {
-		binds = append(binds, bind{pnames[i], tstr(sig.Params().At(i).Type()), text(a.Pos(), a.End())})
+		pt := sig.Params().At(i).Type()
+		typ := tstr(pt)
+		// an argument that already has exactly the parameter's type needs no type spelled out
+		// (which also keeps working where the call site shadows the type's name)
+		if tv, ok := info.Types[a]; ok && tv.Value == nil && tv.Type != nil && types.Identical(tv.Type, pt) && !tv.IsNil() {
+			typ = ""
+		}
+		binds = append(binds, bind{pnames[i], typ, text(a.Pos(), a.End()), tstr(pt)})
 	}
 	named := fieldNames(h.results)
 	hasNamed := false
@@ -880,10 +890,20 @@ func buildInline(fset *token.FileSet, pkg *types.Package, info *types.Info, src 
 	}
 	// the inlined block proper: named results, label, body
 	var core strings.Builder
+	namedDecl := ""
 	if hasNamed {
+		// zero-valued, again in one short declaration (types resolved in the outer scope)
+		var ns, zs []string
 		for i, n := range named {
 			if n != "_" {
-				fmt.Fprintf(&core, "var %s %s; _ = %s; ", n, tstr(sig.Results().At(i).Type()), n)
+				ns = append(ns, n)
+				zs = append(zs, "*new("+tstr(sig.Results().At(i).Type())+")")
+			}
+		}
+		if len(ns) > 0 {
+			namedDecl = fmt.Sprintf("%s := %s; ", strings.Join(ns, ", "), strings.Join(zs, ", "))
+			for _, n := range ns {
+				namedDecl += fmt.Sprintf("_ = %s; ", n)
 			}
 		}
 	}
@@ -902,10 +922,10 @@ func buildInline(fset *token.FileSet, pkg *types.Package, info *types.Info, src 
 			if n == "_" {
 				n = fmt.Sprintf("zzP%d_%d", i, id)
 			}
-			ps = append(ps, n+" "+b.typ)
+			ps = append(ps, n+" "+b.ftyp)
 			as = append(as, b.arg)
 		}
-		txt := line(callFile, s.Pos()) + "defer func(" + strings.Join(ps, ", ") + ") { " + core.String() + " }(" + strings.Join(as, ", ") + ")" + resyncEnd(fset, callFile, s.End())
+		txt := line(callFile, s.Pos()) + "defer func(" + strings.Join(ps, ", ") + ") { " + namedDecl + core.String() + " }(" + strings.Join(as, ", ") + ")" + resyncEnd(fset, callFile, s.End())
 		return []splice{{off(s.Pos()), off(s.End()), txt}}, true
 	}
 	// temporaries in the caller's scope: results, then arguments in order
@@ -914,14 +934,28 @@ func buildInline(fset *token.FileSet, pkg *types.Package, info *types.Info, src 
 		fmt.Fprintf(&pre, "var %s %s; ", rn, tstr(sig.Results().At(i).Type()))
 	}
 	var blk strings.Builder
-	blk.WriteString("{ ")
+	blk.WriteString("{ " + namedDecl)
+	// parameters are bound in one short declaration: its right-hand sides (typed
+	// temporaries) are resolved before any of the names comes into scope, so a parameter
+	// that shadows a type or another parameter's type name (`node *node`) is harmless
+	var lhs, rhs []string
 	for i, b := range binds {
 		tmp := fmt.Sprintf("zzA%d_%d", i, id)
-		fmt.Fprintf(&pre, "var %s %s = %s; ", tmp, b.typ, b.arg)
+		if b.typ == "" {
+			fmt.Fprintf(&pre, "%s := %s; ", tmp, b.arg)
+		} else {
+			fmt.Fprintf(&pre, "var %s %s = %s; ", tmp, b.typ, b.arg)
+		}
 		if b.name == "_" {
 			fmt.Fprintf(&blk, "_ = %s; ", tmp)
 		} else {
-			fmt.Fprintf(&blk, "var %s %s = %s; _ = %s; ", b.name, b.typ, tmp, b.name)
+			lhs, rhs = append(lhs, b.name), append(rhs, tmp)
+		}
+	}
+	if len(lhs) > 0 {
+		fmt.Fprintf(&blk, "%s := %s; ", strings.Join(lhs, ", "), strings.Join(rhs, ", "))
+		for _, n := range lhs {
+			fmt.Fprintf(&blk, "_ = %s; ", n)
 		}
 	}
 	blk.WriteString(core.String())
